@@ -81,7 +81,8 @@ Inductive ty :=
 | TPtr (e : ty)
 | TSlice (e : ty)
 | TArray (n : N) (e : ty)
-| TMap (k v : ty).
+| TMap (k v : ty)
+| TIfaceLit (text : bytes).                       (* an unnamed interface type with methods, e.g. interface{ M() string } *)
 
 Record field := mk_field { f_name : bytes; f_ty : ty; f_tag : bytes }.
 
@@ -117,6 +118,7 @@ Section WithTracker.
     | TSlice e => let (o, i) := type_lit e in (OSlice o, i)
     | TArray n e => let (o, i) := type_lit e in (OArray n o, i)
     | TMap k v => let (ok, ik) := type_lit k in let (ov, iv) := type_lit v in (OMap ok ov, ik ++ iv)
+    | TIfaceLit _ => (OIdent (bs "any"), [])      (* dumper.go:81-82: every unnamed interface is printed `any` *)
     end.
 
   (* ---- snippet.ID(string): gengotypes.ParseRef, then rawNamer.Name / processName (pkg/types/ref.go:23-32, 67-124) ---- *)
@@ -515,6 +517,7 @@ Fixpoint denotes (imps : list (bytes * bytes)) (target : bytes) (o : oty) (t : t
   | OSlice a, TSlice b => denotes imps target a b
   | OArray n a, TArray m b => N.eqb n m && denotes imps target a b
   | OMap k a, TMap l b => denotes imps target k l && denotes imps target a b
+  | OText t, TIfaceLit t' => bytes_eqb t t'
   | _, _ => false
   end.
 
@@ -568,6 +571,28 @@ Definition shadow_type (target : bytes) (ti : tinput) : bool :=
 
 Definition shadow_class (target : bytes) (tis : list tinput) : bool := existsb (shadow_type target) tis.
 
+
+(* ---- known-finding class unnamed_method_interface_rendered_any ---- *)
+
+Fixpoint has_iface_lit (t : ty) : bool :=
+  match t with
+  | TIfaceLit _ => true
+  | TPtr e | TSlice e | TArray _ e => has_iface_lit e
+  | TMap k v => has_iface_lit k || has_iface_lit v
+  | _ => false
+  end.
+
+Definition iface_type (ti : tinput) : bool :=
+  ti_enabled ti &&
+  match ti_under ti, own_origin ti with
+  | Some fs, Some _ =>
+      existsb (fun f => negb (omitted (ti_omit ti) (f_name f))
+                        && match lookup (f_name f) (replace_map (ti_replace ti) []) with Some _ => false | None => true end
+                        && has_iface_lit (f_ty f)) fs
+  | _, _ => false
+  end.
+
+Definition iface_class (tis : list tinput) : bool := existsb iface_type tis.
 
 (* ---- scoping of the rendered methods: the locals in scope where a type expression is rendered ---- *)
 
